@@ -455,6 +455,33 @@ class Check:
                     results += vals
         return results
 
+    def coqchk(self):
+        """thorough tier: re-check the compiled closure of the property theorems with the independent checker
+        and copy its axiom report into the evidence."""
+        mods = [f'AV.props.{p.stem}' for p in sorted((COQ / 'props').glob(f'{self.pid}_*.v'))]
+        if not mods:
+            return
+        cmd = ['timeout', '1500', 'coqchk', '-silent', '-o', '-R', str(COQ), 'AV', *mods]
+        self.checker_cmds.append('coqchk -silent -o -R coq AV ' + ' '.join(mods))
+        r = subprocess.run(cmd, capture_output=True, text=True, cwd=COQ)
+        out = r.stdout + r.stderr
+        if r.returncode != 0:
+            self.obligations.append({'name': 'coqchk:' + ','.join(mods), 'ok': False})
+            self.broken('coqchk', out[-2000:])
+            return
+        m = re.search(r'\* Axioms:(.*?)\n\s*\n\* Constants/Inductives relying on type-in-type:(.*?)\n\s*\n'
+                      r'\* Constants/Inductives relying on unsafe \(co\)fixpoints:(.*?)\n\s*\n'
+                      r'\* Inductives whose positivity is assumed:(.*?)\n', out, re.S)
+        rep = {'axioms': ' '.join(m.group(1).split()) if m else '?',
+               'type_in_type': ' '.join(m.group(2).split()) if m else '?',
+               'unsafe_fixpoints': ' '.join(m.group(3).split()) if m else '?',
+               'assumed_positivity': ' '.join(m.group(4).split()) if m else '?'}
+        self.notes['coqchk'] = rep
+        ok = bool(m) and all(rep[k] == '<none>' for k in ('type_in_type', 'unsafe_fixpoints', 'assumed_positivity'))
+        self.obligations.append({'name': 'coqchk:' + ','.join(mods), 'ok': ok, 'axioms': []})
+        if not ok:
+            self.broken('coqchk', 'kernel checks relaxed or report unparsable: ' + json.dumps(rep))
+
     # ---- verdict ---------------------------------------------------------
     def broken(self, name: str, detail: str, case=None):
         """A proof obligation / extraction / correspondence that no longer checks."""
